@@ -35,6 +35,10 @@ mode flags that survive AssembleFile_InitPass), step machine spec/Driver_MC.tla.
     process (segment, PC, IfAsm, CPU).  Rejections there are reported as SPEC-DRIFT (the state may be unfresh
     without changing any output); counter/loop/exit rejections are C02's.
 
+    jump-error family: the two-file runs of Driver_Gen_Jump.cfg (tjmp / pjmp lines, with and without -Y; quick: 1200
+    seed-chosen, thorough: all) rendered for 6502 / 68HC11, joint vs. solo as above.  Driver_MC_LeakyJmp.cfg (Leaky =
+    {"jmperrors"}) must give the Independent counterexample.
+
 Not covered: fatal predecessors end the run (the successor is not assembled: stated by the model, nothing to
 compare); statics inside code generators are only visible through their effect on the golden successors; flags
 are compared pairwise with identical asflags only (options are per invocation).
@@ -61,7 +65,7 @@ import re
 
 from vlib import aslrun, build, drvrender, drvrun, drvtrace, tlc
 from vlib.aslrun import INCLUDE
-from vlib.common import CheckError, Phase, log, rng
+from vlib.common import CheckError, Phase, log, pmap, rng
 from vlib.report import Report
 
 PID = "C18"
@@ -540,28 +544,30 @@ def main(tier):
                         "renderer and byte / text comparison (Python) are trusted",
                         "hooks: %s" % ("file/diag/stmt events" if bld.hooks else "unavailable (black-box replay only)")]
     # (M) ---------------------------------------------------------------------------------------
-    for cfg in (["Driver_MC_Hist.cfg"] if tier == "quick" else ["Driver_MC_Hist.cfg", "Driver_MC_Hist3.cfg"]):
-        with Phase("TLC Driver_MC %s" % cfg):
-            mc = tlc.must(tlc.run("Driver_MC", cfg, workers=4, timeout=1700, mem="10g", collect=False), "Driver_MC(%s)" % cfg)
+    good = ["Driver_MC_Hist.cfg"] if tier == "quick" else ["Driver_MC_Hist.cfg", "Driver_MC_Hist3.cfg"]
+    # model variants of the defects (as originally pinned / as seeded): TLC must find the Independent counterexample
+    leaky = [("Driver_MC_Leaky.cfg", "Leaky = {dotted}: DOTTEDSTRUCTS survives AssembleFile_InitPass"),
+             ("Driver_MC_LeakyCpu.cfg", "Leaky = {switchocc}: SetCPUCore forgetting SwitchIsOccupied"),
+             ("Driver_MC_LeakyJmp.cfg", "Leaky = {jmperrors}: JmpErrors not cleared per pass / file")]
+
+    def one(cfg):
+        return tlc.must(tlc.run("Driver_MC", cfg, workers=4 if cfg in good else 1, timeout=1700, mem="8g", collect=False),
+                        "Driver_MC(%s)" % cfg)
+    with Phase("TLC Driver_MC: %s + %d defect variants" % (", ".join(good), len(leaky))):
+        rs = pmap(one, good + [c for (c, _) in leaky], workers=4)
+    for cfg, mc in zip(good, rs):
         if mc.violation:
-            raise CheckError("the design violates FreshStart/Independent: %s" % mc.violation[:800])
+            raise CheckError("the design violates FreshStart/Independent (%s): %s" % (cfg, mc.violation[:800]))
         rep.model("Driver_MC(%s)" % cfg, mc)
-    lk = tlc.must(tlc.run("Driver_MC", "Driver_MC_Leaky.cfg", workers=1, timeout=600, mem="4g", collect=False),
-                  "Driver_MC(Leaky)")
-    rep.part("Driver_MC(Driver_MC_Leaky.cfg)", expected_counterexample=bool(lk.violation), distinct_states=lk.distinct,
-             note="Leaky = {dotted} as coded on the pinned tree: Independent must fail")
-    if not lk.violation or "Independent" not in lk.violation:
-        raise CheckError("the leaky model does not reproduce the dependence between files: %r" % (lk.violation or "")[:300])
-    lk2 = tlc.must(tlc.run("Driver_MC", "Driver_MC_LeakyCpu.cfg", workers=1, timeout=600, mem="4g", collect=False),
-                   "Driver_MC(LeakyCpu)")
-    rep.part("Driver_MC(Driver_MC_LeakyCpu.cfg)", expected_counterexample=bool(lk2.violation), distinct_states=lk2.distinct,
-             note="Leaky = {switchocc}: SetCPUCore forgetting SwitchIsOccupied: Independent must fail")
-    if not lk2.violation or "Independent" not in lk2.violation:
-        raise CheckError("the per-target leak model does not reproduce the dependence: %r" % (lk2.violation or "")[:300])
+    for (cfg, note), lk in zip(leaky, rs[len(good):]):
+        rep.part("Driver_MC(%s)" % cfg, expected_counterexample=bool(lk.violation), distinct_states=lk.distinct, note=note)
+        if not lk.violation or "Independent" not in lk.violation:
+            raise CheckError("the defect variant %s does not reproduce the dependence between files: %r"
+                             % (cfg, (lk.violation or "")[:300]))
     # (G) ---------------------------------------------------------------------------------------
-    with Phase("TLC Driver_Gen history cover"):
-        cov = tlc.must(tlc.run("Driver_Gen", "Driver_Gen_Hist.cfg" if tier == "quick" else "Driver_Gen_Hist2.cfg",
-                               workers=1, timeout=1700, mem="10g"), "Driver_Gen(Hist)")
+    with Phase("TLC Driver_Gen history cover + jump cover"):
+        cov, covj = pmap(lambda c: tlc.must(tlc.run("Driver_Gen", c, workers=1, timeout=1700, mem="10g"), "Driver_Gen(%s)" % c),
+                         ["Driver_Gen_Hist.cfg" if tier == "quick" else "Driver_Gen_Hist2.cfg", "Driver_Gen_Jump.cfg"], workers=2)
     rep.model("Driver_Gen(history cover)", cov)
     trs = [b for (tag, b) in cov.printed if tag == "TR" and len(b["files"]) >= 2]
     if not trs:
@@ -579,8 +585,6 @@ def main(tier):
         rng("c18/sample").shuffle(two)
         trs = one + two[:max(0, THOROUGH_MAX - len(one))]
     # histories of the jump-error family (JmpErrors / -Y): from the C02 cover, the two-file runs
-    with Phase("TLC Driver_Gen jump cover"):
-        covj = tlc.must(tlc.run("Driver_Gen", "Driver_Gen_Jump.cfg", workers=1, timeout=1700, mem="8g"), "Driver_Gen(Jump)")
     rep.model("Driver_Gen(jump cover)", covj)
     jt = [b for (tag, b) in covj.printed if tag == "TR" and len(b["files"]) >= 2
           and any(ln["k"] in ("tjmp", "pjmp") for f in b["files"] for ln in f)]
